@@ -267,7 +267,7 @@ def rule_d_zero_fill(ctx, fn):
         from engine.cfg import atoms as _atoms
 
         cat = [(key(a.strip()), t) for a, t in _atoms(cond, True)]
-        upper_ok = any(k in ["(<= %s %s)" % (v, x) for x in newmax] and t for k, t in cat)
+        upper_ok = any(k in ["(<= %s %s)" % (v, x) for x in newmax] + ["(< %s (+ %s 1))" % (v, x) for x in newmax] and t for k, t in cat)
         facts = cfg.facts_at(iv[0].c[0]) if iv[0].c[0].i in cfg.pos else frozenset()
         empty_branch = any(tv is True and k.startswith("(== ") and k.endswith(" 0)") for k, tv, _r in facts)
         if empty_branch:
